@@ -68,7 +68,7 @@ async fn main() {
                         if reported.insert(class) {
                             rp_core::report(true, class, json!({"delivery(seq numbers)": order.clone(), "extra": extra_names[ex]}),
                                 json!({"stored_seqs": es.iter().map(|o| o.header.seq_num).collect::<Vec<_>>()}),
-                                &["oplog::validate_backlink.ensures#ok_iff_links", "oplog::validate_prunable_backlink.ensures#ok_iff_extends_log", "oplog::ingest_operation.ensures#accepted_extends_log", "oplog::ingest_operation.ensures#never_below_head", "oplog::ingest_operation.safety"]);
+                                &["oplog::validate_backlink.ensures#ok_iff_links", "oplog::validate_prunable_backlink.ensures#ok_iff_extends_log", "oplog::ingest_operation.ensures#accepted_extends_log", "oplog::ingest_operation.ensures#strictly_above_head", "oplog::validate_prunable_backlink.ensures#strictly_above_head", "oplog::ingest_operation.safety"]);
                         }
                     }
                 }
